@@ -1,2 +1,22 @@
-(* C03 - property statements (theorems are being added) *)
-From Asherah Require Import Envelope.Session.
+(* C03 - envelope discipline.  For EVERY world (any caches, store, fault plan) and every payload: a successful
+   Encrypt returns Data = seal(payload) under a data key that no secret existing before the call held, with a
+   nonce not used before the call, and Key = seal(that very data key) under the intermediate key's material with
+   the next nonce; the record names this partition's intermediate-key id.  (Uniqueness of crypto/rand output is
+   the model's supply, i.e. an assumption; what is proved is that the code asks for a fresh key and nonce and
+   wraps the data key nowhere else.) *)
+From Asherah Require Import Envelope.Session Envelope.Frame Envelope.Local Envelope.FrameInst.
+
+Theorem C03_fresh_data_key : forall e payload w d w',
+  encrypt_payload e payload w = (inr d, w') ->
+  exists ek ikm c drk n,
+    d_key d = Some ek /\ e_key ek = CAead ikm (S n) (PKey drk) /\ d_data d = CAead drk n payload /\
+    e_parent ek = Some {| km_id := ik_id e; km_created := c |} /\
+    (length (w_secrets w) <= drk)%nat /\ (w_nonce w <= n)%nat.
+Proof. exact encrypt_fresh_data_key. Qed.
+Print Assumptions C03_fresh_data_key.
+
+(* the nonce counter never goes back in any SDK operation of any history: no (key, nonce) pair repeats *)
+Theorem C03_nonce_monotone : forall h o, sdk_op o = true ->
+  (w_nonce (h_world h) <= w_nonce (h_world (snd (hstep h o))))%nat.
+Proof. exact sdk_nonce_monotone. Qed.
+Print Assumptions C03_nonce_monotone.
